@@ -15,12 +15,13 @@ VARIABLES l, dv, why
 tvars == <<st, l, dv, why>>
 
 DevOrder == <<KF_C05_NonPositiveTail, KF_C05_DenseNumExceedsSize, KF_C05_FallbackNumExceedsSize,
-              KF_C05_PanelNumNotCapped, KF_C05_ConeCylBucklingMode, KF_C06_RoundedSort, KF_C06_SparseNumExceedsSize,
+              KF_C05_PanelNumNotCapped, KF_C05_ConeCylBucklingMode, KF_C05_LoadOnStiffnessless, KF_C06_RoundedSort, KF_C06_SparseNumExceedsSize,
               KF_C06_ReducedDofScatter, KF_C06_DenseColumnSum>>
 KfVerdict == <<"kf:KF_C05_NonPositiveTail", "kf:KF_C05_DenseNumExceedsSize", "kf:KF_C05_FallbackNumExceedsSize",
-               "kf:KF_C05_PanelNumNotCapped", "kf:KF_C05_ConeCylBucklingMode", "kf:KF_C06_RoundedSort", "kf:KF_C06_SparseNumExceedsSize",
+               "kf:KF_C05_PanelNumNotCapped", "kf:KF_C05_ConeCylBucklingMode", "kf:KF_C05_LoadOnStiffnessless",
+               "kf:KF_C06_RoundedSort", "kf:KF_C06_SparseNumExceedsSize",
                "kf:KF_C06_ReducedDofScatter", "kf:KF_C06_DenseColumnSum">>
-Relevant(api, i) == IF IsLb(api) THEN i <= 5 ELSE i >= 6
+Relevant(api, i) == IF IsLb(api) THEN i <= 6 ELSE i >= 7
 DevSet(i) == IF i = 0 THEN {} ELSE {DevOrder[i]}
 
 Prob(e) == [n |-> e.p.n, cls |-> e.p.cls, s |-> InRat(e.p.s), zs |-> { e.p.zs[j] : j \in 1..Len(e.p.zs) },
@@ -50,11 +51,40 @@ OmClose(z, mu, scale) ==
            N == RAdd(Sq(a), Sq(b))
        IN /\ RSign(re) > 0
           /\ RLe(RAdd(Sq(RSub(RDiv(a, N), mu)), Sq(RDiv(b, N))), Sq(RMul(Tau, scale)))
-ValClose(s, z, v, scale) ==
+(* "To solver precision" for the iterative paths is precision in the variable ARPACK iterates on (tol = 0:
+   Ritz values converged to machine precision relative to the transformed spectrum, times the conditioning of
+   the factorised shift matrix), not in mu: a fixed 2^-30 max|mu| asks for 7e-13 in nu when max|mu| = 4e-4
+   (lambda of some thousands, K of condition 4e11: cylindrical panels, r = 2) and was a false alarm there.
+   eigsh, sigma = 1, Cayley: nu = (mu+1)/(mu-1) = (1-lambda)/(1+lambda):  |nu_obs - nu| <= f tau (1 + |nu|);
+   eigs, sigma = -1, shift-invert: nu = 1/(omega^2+1) = mu/(1+mu):        |nu_obs - nu| <= f tau nu(max mu).
+   The dense paths (LAPACK on (B, K) itself) stay in mu-space: f tau max|mu|. *)
+CayleyClose(z, mu, f) ==
+    /\ z[2][1] = 0
+    /\ LET nu == RDiv(RAdd(mu, ROne), RSub(mu, ROne))
+           tol == RMul(RMul(f, Tau), RAdd(ROne, RAbs(nu)))
+       IN IF IsFin(z[1])
+          THEN LET lam == Obs(z[1])
+               IN /\ RAdd(ROne, lam) # RZero
+                  /\ RLe(RAbs(RSub(RDiv(RSub(ROne, lam), RAdd(ROne, lam)), nu)), tol)
+          ELSE z[1][1] \in {9, -9} /\ RLe(RAbs(RSub(RNeg(ROne), nu)), tol)
+ShiftInvertClose(z, mu, scale, f) ==
+    /\ IsFin(z[1]) /\ IsFin(z[2])
+    /\ LET re == Obs(z[1])
+           im == Obs(z[2])
+           a1 == RAdd(RSub(Sq(re), Sq(im)), ROne)            \* omega^2 + 1 = a1 + i b
+           b == RMul(RFromInt(2), RMul(re, im))
+           N == RAdd(Sq(a1), Sq(b))
+           nu == RDiv(mu, RAdd(ROne, mu))
+           numax == RDiv(scale, RAdd(ROne, scale))
+       IN /\ RSign(re) > 0
+          /\ RLe(RAdd(Sq(RSub(RDiv(a1, N), nu)), Sq(RDiv(b, N))), Sq(RMul(RMul(f, Tau), numax)))
+ValCloseF(s, z, v, scale, arpack, f) ==
     IF v.id = 0 THEN TRUE          \* unspecified by the model (reduced_dof subsystem, or a listed deviation: s.unspec)
-    ELSE IF v.form = "lam" THEN LamClose(z, Mu(s.p, v.id), scale)
-    ELSE IF v.form = "om" THEN OmClose(z, Mu(s.p, v.id), scale)
+    ELSE IF v.form = "lam" THEN (IF arpack THEN CayleyClose(z, Mu(s.p, v.id), f) ELSE LamClose(z, Mu(s.p, v.id), RMul(f, scale)))
+    ELSE IF v.form = "om" THEN (IF arpack THEN ShiftInvertClose(z, Mu(s.p, v.id), scale, f)
+                                ELSE OmClose(z, Mu(s.p, v.id), RMul(f, scale)))
     ELSE FALSE
+ValClose(s, z, v, scale) == ValCloseF(s, z, v, scale, s.o.sparse, ROne)
 (* the observed residual of pair c: || (K + lambda KG) v || <= 2^-30 (||K|| + |lambda| ||KG||) ||v||, v # 0
    (an observation, not an oracle); not defined for an infinite multiplier *)
 ResOK(r, z) == IF r.skip THEN ~IsFin(z[1])
@@ -65,7 +95,7 @@ ResOK(r, z) == IF r.skip THEN ~IsFin(z[1])
    residual in the lambda form: || K v + lambda KG v || ~ ||K v|| stays finite while the admissible error
    2^-30 |lambda| ||KG|| ||v|| depends on how large the stand-in for infinity came out.  Its value clause
    (|-1/lambda| <= 2^-30 max|mu|) is what is demanded. *)
-InfiniteMultiplier(s, c) == IsLb(s.o.api) /\ s.vals[c].id # 0 /\ RIsZero(Mu(s.p, s.vals[c].id))
+InfiniteMultiplier(s, c) == s.vals[c].id # 0 /\ RIsZero(Mu(s.p, s.vals[c].id))
 
 (* ordering on the observed numbers themselves (the claimed part of the list) *)
 ObsRe(z) == Obs(z[1])
@@ -79,9 +109,11 @@ FreqObsOrder(s, o) ==
         \A c \in 1..(Len(o.vals)-1) : RLe(ObsRe(o.vals[c]), RMul(OnePlusSlack, ObsRe(o.vals[c+1])))
 (* the other path on the same matrices (sparse <-> dense): agreement on the claimed common prefix *)
 PeerOK(s, o, scale) ==
-    (o.peer # <<>> /\ Known(s) /\ ~(~IsLb(s.o.api) /\ D(s, KF_C06_DenseColumnSum) /\ s.p.zs # {}) /\ (IF IsLb(s.o.api) THEN Regime(s.p) ELSE s.o.sort /\ ~Collision(s.p))) =>
+    (o.peer # <<>> /\ Known(s)
+       /\ ~(~IsLb(s.o.api) /\ D(s, KF_C06_DenseColumnSum) /\ BAct(s.p) \ s.p.zs # Act(s.p))    \* dense peer unspecified
+       /\ (IF IsLb(s.o.api) THEN Regime(s.p) ELSE s.o.sort /\ ~Collision(s.p))) =>
         LET L == Min2(Len(Claimed(s)), IF IsLb(s.o.api) THEN Min2(Len(o.peer), NPos(s.p)) ELSE Len(o.peer))
-        IN \A c \in 1..L : ValClose(s, o.peer[c], s.vals[c], RMul(RFromInt(2), scale))
+        IN \A c \in 1..L : ValCloseF(s, o.peer[c], s.vals[c], scale, TRUE, RFromInt(2))   \* one of the two is ARPACK's
 
 (* first clause that separates the model's final state from the observation ("" = none) *)
 Mismatch(s, e) ==
